@@ -68,7 +68,19 @@ def env():
         Sh = spec_class(bootstrap=True)(type("Sh", (), {
             "__annotations__": {"n": int, "extra": List[Any], "mods": List[Any]},
             "n": 0, "extra": [sys], "mods": spec_property(lambda self: [math, {"k": sys}], cache=True), "__module__": "vf.generated"}))
-        _ENV.update(In=In, Out=Out, Sh=Sh)
+        @spec_class(bootstrap=True)
+        class Own:
+            """A spec class that brings its own __deepcopy__ (the library keeps user-defined ones) built on copy.deepcopy."""
+
+            mods: Any = None
+
+            def __deepcopy__(self, memo):
+                new = type(self).__new__(type(self))
+                memo[id(self)] = new
+                vars(new).update(copy.deepcopy(dict(vars(self)), memo))
+                return new
+
+        _ENV.update(In=In, Out=Out, Sh=Sh, Own=Own)
     return _ENV
 
 
@@ -193,7 +205,7 @@ _PRIV = {}
 def make_in(i):
     In = env()["In"]
     # (a module held directly is passed through without any copying; inside a container it goes through the copy protocol)
-    return In(m=[math, sys, None, [_private_modules()[0]], {"k": [_private_modules()[1]]}][i % 5], v=[i])
+    return In(m=[math, sys, None, [_private_modules()[0]], {"k": [_private_modules()[1]]}, env()["Own"](mods=[math, {"k": sys}])][i % 6], v=[i])
 
 
 def modules_of(obj, seen=None, out=None):
@@ -329,6 +341,10 @@ def _run_seq(ctx, case):
                 return
             except (TypeError, ValueError, AttributeError, KeyError, IndexError) as e:
                 nxt, outcome = cur, "raise"
+                if "pickle 'module'" in str(e) and op[0] != "deepcopy_nested":  # (that op deep-copies a PLAIN list holding a module: Python's own refusal)
+                    # whatever else an op may refuse: a module held by a value the library copies is passed through, never pickled
+                    ctx.fail(f"seq|{op[0]}|module_not_copyable", case, f"op {i} {op}: copying a module-bearing value raised {e!r}")
+                    return
                 if op[0] in MUST_SUCCEED:
                     ctx.fail(f"seq|{op[0]}|raises:{type(e).__name__}", case, f"op {i} {op}: declaring / constructing a class whose default holds modules raised {e!r}")
                     return
